@@ -1,5 +1,6 @@
 """C05 — a merge that raises leaves the running order exactly as it was."""
 import itertools
+import copy
 import gens
 import impl
 import engine
@@ -88,6 +89,11 @@ class Check(AddCheck):
             seen.add(key)
             for v in drop_variants(to_text(doc)):
                 yield {'ro': ro, 'msg': v, 'meta': dict(meta, cls=cls, n=3, layout='dropped-element')}
+            # ... and with a message ID that is blank or not an integer literal: whatever evaluates it, and whenever
+            for mid in ('', 'A17', '7.0', ' '):
+                d2 = copy.deepcopy(doc)
+                d2.find('messageID').text = mid or None
+                yield {'ro': ro, 'msg': to_text(d2), 'meta': dict(meta, cls=cls, n=3, layout='bad-message-id')}
         yield from gens.merge_cases_padded()
         yield from gens.merge_cases_special_ids()
         yield from gens.merge_cases_bad_timing_payload()
